@@ -39,10 +39,15 @@ VARIANTS = {
     "Try": ["try:\n    c(7)\nfinally:\n    c(8)", "try:\n    c(7)\nexcept Exception:\n    c(8)\nelse:\n    c(9)"],
     "Raise": ["raise", "raise c(7) from c(8)"],
     "Assert": ["assert c(7), c(8)"],
-    "Import": ["import os as o"],
+    "Import": ["import os as o", "import os as f"],
     "Delete": ["del y, z"],
-    "FunctionDef": ["def g(a, b=1):\n    if t(7):\n        return 1\n    return 2", "@c(7)\ndef g():\n    pass"],
-    "ClassDef": ["class K(c(7)):\n    y = 1"],
+    "FunctionDef": ["def g(a, b=1):\n    if t(7):\n        return 1\n    return 2", "@c(7)\ndef g():\n    pass",
+                    # names that coincide with the enclosing function, a local variable, an oracle
+                    "def f():\n    return c(7)", "def y():\n    return c(7)", "def c():\n    pass"],
+    "ClassDef": ["class K(c(7)):\n    y = 1", "class f:\n    pass"],
+    "AsyncFunctionDef": ["async def f():\n    pass"],
+    "Global": ["global f"],
+    "ImportFrom": ["from os import path as f"],
     "Match": ["match c(7):\n    case 1:\n        c(8)\n    case _:\n        c(9)"],
 }
 
@@ -141,6 +146,8 @@ def insertion_sources(src: str, snippet: str):
 
 # representative constructs for the larger skeleton sets: a simple statement, a compound with a body, a definition
 REPRESENTATIVE = ("Import", "With", "FunctionDef", "Raise")
+# for the larger skeleton sets the FunctionDef representative is the variant named like the enclosing function
+REP_SNIPPET = {"FunctionDef": "def f():\n    return c(7)"}
 
 
 def skeleton_cases(tier: str, k: int = 0, nshards: int = 1):
@@ -159,7 +166,7 @@ def skeleton_cases(tier: str, k: int = 0, nshards: int = 1):
             if len(done) % nshards != k:
                 continue
             for cls in clss:
-                snippets = [SNIPPETS[cls]] + (VARIANTS.get(cls, []) if variants else [])
+                snippets = [SNIPPETS[cls]] + (VARIANTS.get(cls, []) if variants else ([REP_SNIPPET[cls]] if cls in REP_SNIPPET else []))
                 for si, snip in enumerate(snippets):
                     for at, cand in insertion_sources(src, snip):
                         yield cls, f"{cls}#{si}@{slabel}+{at}", cand
@@ -183,7 +190,7 @@ def skeleton_cases(tier: str, k: int = 0, nshards: int = 1):
                     except SyntaxError:
                         continue
                     for cls in clss:
-                        for at2, cand in insertion_sources(src1, SNIPPETS[cls]):
+                        for at2, cand in insertion_sources(src1, REP_SNIPPET.get(cls, SNIPPETS[cls])):
                             yield cls, f"{cls}#0@{slabel}+{term.split()[0]}@{at1}+{at2}", cand
     if tier != "quick":
         for j, (slabel, src) in enumerate(chain_sources(3, "marked")):
